@@ -45,6 +45,9 @@ type c13Op struct {
 	Dirty []int       `json:"dirty"` // senders of the block's transactions
 	Accs  []int       `json:"accs"`
 	Max   uint32      `json:"max"`
+	From  int         `json:"from"`       // bulkput: txs[from:to]
+	To    int         `json:"to"`
+	TimeoutNs int64   `json:"timeout_ns"` // evictto: evictWorkTimeout for this pass
 }
 
 type c13Case struct {
@@ -261,6 +264,33 @@ func (e *c13Env) apply(op *c13Op, o *c13Obs) {
 			}
 		}
 		mp.evictTransactions()
+		o.Res = "ok"
+	case "bulkput":
+		okc := 0
+		for i := op.From; i < op.To && i < len(e.txs); i++ {
+			if mp.put(e.txs[i]) == nil {
+				okc++
+			}
+		}
+		o.Res = "ok"
+		o.Extra = append(o.Extra, fmt.Sprintf("order:accepted=%d", okc))
+	case "evictto":
+		// an eviction pass with a work timeout that expires during the pass
+		now := time.Now()
+		sel := map[int]bool{}
+		for _, a := range op.Accs {
+			sel[a] = true
+		}
+		for id, l := range mp.pool {
+			if sel[e.byAcc[id]] {
+				l.lastTime = time.Time{}
+			} else {
+				l.lastTime = now.Add(time.Hour)
+			}
+		}
+		evictWorkTimeout = time.Duration(op.TimeoutNs)
+		mp.evictTransactions()
+		evictWorkTimeout = time.Hour
 		o.Res = "ok"
 	case "get":
 		txs, err := mp.get(op.Max)
